@@ -63,6 +63,10 @@ def diagnose(d):
         if c is not d and c.identifier is not None:
             names.append(c.identifier)
         for q in names:
+            if q.namespace.uri == "http://www.w3.org/2001/XMLSchema":
+                feats.add("xsd-uri-without-hash")
+            if q.namespace.uri == "http://www.w3.org/2001/XMLSchema-instance":
+                feats.add("xsi-name")
             p, l = q.namespace.prefix, q.localpart
             if (p == "" and (":" in l or l == "")) or p == "_" or ":" in p:
                 feats.add("unprintable-name")
